@@ -150,6 +150,7 @@ void h_b_basic(void)
     int len, pos, k;
     for (len = 0; len <= VF_MAXLEN; len++) {
         struct cstl_dlist l; int ref[VF_POOL]; int n;
+        VF_SCEN(len > 0);
         /* push_front / push_back */
         vf_build(&l, ref, len, 0); n = len;
         cstl_dlist_push_front(&l, ELEM(10));
@@ -202,6 +203,7 @@ void h_b_multi(void)
     for (la = 0; la <= VF_MAXLEN; la++) {
         for (lb = 0; lb <= 3; lb++) {
             struct cstl_dlist a, b; int ra[VF_POOL], rb[VF_POOL], rt[VF_POOL];
+            VF_SCEN(la > 0 && lb > 0);
             vf_build(&a, ra, la, 0); vf_build(&b, rb, lb, 6);
             cstl_dlist_concat(&a, &b);
             for (k = 0; k < lb; k++) ra[la + k] = rb[k];
@@ -267,6 +269,7 @@ void h_b_sort(void)
         for (k = 0; k < len; k++) ncodes *= 3;
         for (code = 0; code < ncodes; code++) {
             struct cstl_dlist l; int ref[VF_POOL], c = code;
+            VF_SCEN(len > 1);
             vf_build(&l, ref, len, 0);
             for (k = 0; k < len; k++) { vf_pool[k].key = c % 3; c /= 3; }
             /* find: first match in each direction */
